@@ -2,6 +2,7 @@ package main
 
 import (
 	"fmt"
+	"go/constant"
 	"go/token"
 	"go/types"
 	"os"
@@ -153,7 +154,64 @@ func flattenConcat(v ssa.Value, out *[]templatePart) {
 		flattenConcat(b.Y, out)
 		return
 	}
+	// fmt.Sprintf with a constant format whose verbs are all %s / %v of strings
+	// is the concatenation of the constant stretches and the arguments
+	if call, ok := v.(*ssa.Call); ok && isLibCall(&call.Call, "fmt", "", "Sprintf") && len(call.Call.Args) == 2 {
+		if format, ok := constString(call.Call.Args[0]); ok {
+			if elems, ok := variadicElements(call.Call.Args[1]); ok {
+				var pieces []ssa.Value // nil: a constant stretch follows in texts
+				var texts []string
+				cur := ""
+				okFmt := true
+				k := 0
+				for i := 0; i < len(format) && okFmt; i++ {
+					if format[i] != '%' {
+						cur += string(format[i])
+						continue
+					}
+					i++
+					switch {
+					case i < len(format) && format[i] == '%':
+						cur += "%"
+					case i < len(format) && (format[i] == 's' || format[i] == 'v') && k < len(elems):
+						mi, isMI := elems[k].(*ssa.MakeInterface)
+						if !isMI || !isStringType(mi.X.Type()) || types.IsInterface(mi.X.Type()) {
+							okFmt = false
+							break
+						}
+						if _, named := mi.X.Type().(*types.Named); named {
+							okFmt = false // a String() or Error() method would be used
+							break
+						}
+						pieces, texts = append(pieces, nil), append(texts, cur)
+						cur = ""
+						pieces, texts = append(pieces, mi.X), append(texts, "")
+						k++
+					default:
+						okFmt = false
+					}
+				}
+				if okFmt && k == len(elems) {
+					pieces, texts = append(pieces, nil), append(texts, cur)
+					for i, pc := range pieces {
+						if pc == nil {
+							if texts[i] != "" {
+								flattenConcat(stringConst(texts[i]), out)
+							}
+							continue
+						}
+						flattenConcat(pc, out)
+					}
+					return
+				}
+			}
+		}
+	}
 	*out = append(*out, templatePart{false, path(v)})
+}
+
+func stringConst(s string) ssa.Value {
+	return ssa.NewConst(constant.MakeString(s), types.Typ[types.String])
 }
 
 func c04R2(c *Ctx) {
